@@ -12,6 +12,7 @@ import (
 	"fmt"
 	"go/ast"
 	"go/format"
+	"go/parser"
 	"go/token"
 	"go/types"
 	"os"
@@ -33,9 +34,13 @@ var (
 	noAtomic = flag.String("noatomic", "github.com/relex/gotils/promexporter/promext", "packages whose atomics are not scheduling points")
 	skipPkgs = flag.String("skip", "github.com/relex/slog-agent/test,github.com/relex/slog-agent/cmd,github.com/relex/slog-agent", "packages left untouched")
 	verbose  = flag.Bool("v", false, "verbose")
+	vfsPkgs  = flag.String("vfs", "", "packages whose unix.* file syscalls go through the vfs seam (comma separated import paths)")
 )
 
+const vfsPath = "slogverif/rt/vfs"
+
 type stats struct {
+	vfs                                                                                                             int
 	files, sends, recvs, ranges, selects, closes, lens, gos, locks, wgs, atomics, times, signals, maps, pools, rsel int
 }
 
@@ -74,6 +79,12 @@ func main() {
 	for _, s := range strings.Split(*skipPkgs, ",") {
 		skip[s] = true
 	}
+	vfsSet := map[string]bool{}
+	for _, s := range strings.Split(*vfsPkgs, ",") {
+		if s != "" {
+			vfsSet[s] = true
+		}
+	}
 	noat := map[string]bool{}
 	for _, s := range strings.Split(*noAtomic, ",") {
 		noat[s] = true
@@ -89,7 +100,7 @@ func main() {
 			if strings.HasSuffix(orig, "_test.go") {
 				continue
 			}
-			r := &rewriter{pkg: p, file: f, fset: p.Fset, info: p.TypesInfo, noAtomic: noat[p.PkgPath], fname: shortName(p.PkgPath, orig)}
+			r := &rewriter{pkg: p, file: f, fset: p.Fset, info: p.TypesInfo, noAtomic: noat[p.PkgPath], vfs: vfsSet[p.PkgPath], fname: shortName(p.PkgPath, orig)}
 			if !r.rewriteFile() {
 				continue
 			}
@@ -121,8 +132,8 @@ func main() {
 	if err := os.WriteFile(filepath.Join(*outDir, "overlay.json"), data, 0o644); err != nil {
 		fatalf("%v", err)
 	}
-	fmt.Printf("instr: files=%d send=%d recv=%d range=%d select=%d close=%d len=%d go=%d lock=%d wg=%d atomic=%d time=%d signal=%d maprange=%d pool=%d reflectselect=%d\n",
-		st.files, st.sends, st.recvs, st.ranges, st.selects, st.closes, st.lens, st.gos, st.locks, st.wgs, st.atomics, st.times, st.signals, st.maps, st.pools, st.rsel)
+	fmt.Printf("instr: files=%d send=%d recv=%d range=%d select=%d close=%d len=%d go=%d lock=%d wg=%d atomic=%d time=%d signal=%d maprange=%d pool=%d reflectselect=%d vfs=%d\n",
+		st.files, st.sends, st.recvs, st.ranges, st.selects, st.closes, st.lens, st.gos, st.locks, st.wgs, st.atomics, st.times, st.signals, st.maps, st.pools, st.rsel, st.vfs)
 }
 
 func shortName(pkgPath, file string) string {
@@ -138,6 +149,8 @@ type rewriter struct {
 	info       *types.Info
 	fname      string
 	noAtomic   bool
+	vfs        bool
+	usedVfs    bool
 	changed    bool
 	tmpN       int
 	skipRecv   map[ast.Expr]bool // receive expressions handled by their parent (select comm, v,ok := <-c)
@@ -304,7 +317,12 @@ func (r *rewriter) rewriteFile() bool {
 		}
 		return true
 	})
-	astutil.AddNamedImport(r.fset, r.file, "vsched", vschedPath)
+	if r.usedVsched() {
+		astutil.AddNamedImport(r.fset, r.file, "vsched", vschedPath)
+	}
+	if r.usedVfs {
+		astutil.AddNamedImport(r.fset, r.file, "vfs", vfsPath)
+	}
 	// keep possibly orphaned imports referenced
 	for path := range r.keep {
 		name := ""
@@ -329,6 +347,10 @@ func (r *rewriter) rewriteFile() bool {
 			ref = "Notify"
 		case "reflect":
 			ref = "Select"
+		case "golang.org/x/sys/unix":
+			ref = "Close"
+		case "os":
+			ref = "Getpid"
 		default:
 			continue
 		}
@@ -338,6 +360,20 @@ func (r *rewriter) rewriteFile() bool {
 		}}})
 	}
 	return true
+}
+
+// usedVsched reports whether the rewritten file references the vsched package.
+func (r *rewriter) usedVsched() bool {
+	used := false
+	ast.Inspect(r.file, func(n ast.Node) bool {
+		if se, ok := n.(*ast.SelectorExpr); ok {
+			if id, ok := se.X.(*ast.Ident); ok && id.Name == "vsched" {
+				used = true
+			}
+		}
+		return !used
+	})
+	return used
 }
 
 func hasDirective(cg *ast.CommentGroup) bool {
@@ -688,6 +724,24 @@ func (r *rewriter) rewriteCall(c *astutil.Cursor, n *ast.CallExpr) {
 		return
 	}
 	siteLit := r.site(n)
+	if r.vfs {
+		vfsNames := map[string]bool{"Openat": true, "Write": true, "Close": true, "Read": true, "Fstat": true, "Fstatat": true,
+			"Unlinkat": true, "Renameat": true, "Renameat2": true, "Fsync": true, "Fdatasync": true}
+		if pkg == "golang.org/x/sys/unix" && recv == "" && vfsNames[name] {
+			n.Fun = &ast.SelectorExpr{X: ast.NewIdent("vfs"), Sel: ast.NewIdent(name)}
+			r.keep["golang.org/x/sys/unix"] = true
+			r.changed, r.usedVfs = true, true
+			st.vfs++
+			return
+		}
+		if pkg == "os" && recv == "" && (name == "Rename" || name == "Remove") {
+			n.Fun = &ast.SelectorExpr{X: ast.NewIdent("vfs"), Sel: ast.NewIdent(name)}
+			r.keep["os"] = true
+			r.changed, r.usedVfs = true, true
+			st.vfs++
+			return
+		}
+	}
 	switch {
 	case pkg == "time" && recv == "":
 		repl := map[string]string{"Now": "Now", "After": "TimeAfter", "NewTimer": "NewTimer", "NewTicker": "NewTicker",
@@ -760,18 +814,59 @@ func (r *rewriter) rewriteCall(c *astutil.Cursor, n *ast.CallExpr) {
 		r.changed = true
 		st.locks++
 	case pkg == "sync/atomic" && !r.noAtomic:
-		// yield after the atomic operation
-		tv := r.info.Types[n]
-		if tv.IsVoid() {
-			if _, ok := c.Parent().(*ast.ExprStmt); ok {
-				r.voidAtomic[n] = true
-				r.changed = true
-				st.atomics++
-			}
+		// scheduling point before the atomic operation: vsched.Atomic(site, func() T { return call }) / AtomicV
+		switch c.Parent().(type) {
+		case *ast.DeferStmt, *ast.GoStmt:
 			return
 		}
-		c.Replace(call(vs("After"), n, siteLit))
+		tv := r.info.Types[n]
+		if tv.IsVoid() {
+			lit := &ast.FuncLit{Type: &ast.FuncType{Params: &ast.FieldList{}}, Body: &ast.BlockStmt{List: []ast.Stmt{&ast.ExprStmt{X: n}}}}
+			c.Replace(call(vs("AtomicV"), siteLit, lit))
+			r.changed = true
+			st.atomics++
+			return
+		}
+		rt := r.typeExpr(tv.Type)
+		if rt == nil {
+			return
+		}
+		lit := &ast.FuncLit{
+			Type: &ast.FuncType{Params: &ast.FieldList{}, Results: &ast.FieldList{List: []*ast.Field{{Type: rt}}}},
+			Body: &ast.BlockStmt{List: []ast.Stmt{&ast.ReturnStmt{Results: []ast.Expr{n}}}},
+		}
+		c.Replace(call(vs("Atomic"), siteLit, lit))
 		r.changed = true
 		st.atomics++
 	}
+}
+
+// typeExpr renders a result type of an atomic operation as an expression valid in the current file: basic types, and
+// pointers to named/unnamed types via the qualifier of the file's imports. Returns nil if it cannot be expressed.
+func (r *rewriter) typeExpr(t types.Type) ast.Expr {
+	ok := true
+	str := types.TypeString(t, func(p *types.Package) string {
+		if p == r.pkg.Types {
+			return ""
+		}
+		for _, im := range r.file.Imports {
+			path, _ := strconv.Unquote(im.Path.Value)
+			if path == p.Path() {
+				if im.Name != nil {
+					return im.Name.Name
+				}
+				return p.Name()
+			}
+		}
+		ok = false
+		return p.Name()
+	})
+	if !ok {
+		return nil
+	}
+	e, err := parser.ParseExpr(str)
+	if err != nil {
+		return nil
+	}
+	return e
 }
